@@ -213,6 +213,9 @@ type Config struct {
 	Extra func() map[string]any
 	// Fixed histories run before the generated ones (matrices, regression inputs).
 	Fixed func(tier string) [][]Zs
+	// Prepare is told the history about to be executed, before NewImpl (optional; every execution,
+	// also those of the shrinker).
+	Prepare func(h []Zs)
 }
 
 type StepRec struct {
@@ -335,6 +338,9 @@ func guarded(f func()) bool {
 
 func (r *runner) runOne(h []Zs, keepTrace bool) (Outcome, []StepRec, error) {
 	var impl Impl
+	if r.cfg.Prepare != nil {
+		r.cfg.Prepare(h)
+	}
 	if !guarded(func() { impl = r.cfg.NewImpl() }) {
 		return Outcome{Kind: "violation", Clauses: []string{"implementation-never-returned (set-up of a fresh instance)"}, At: 0, History: h}, nil, nil
 	}
